@@ -144,10 +144,35 @@ def run(ctx):
             raise common.CheckError("harness search failed: " + e[-1000:])
         # whole tool
         nf = ctx.n(60, 3000)
-        rc, so2, e = sh2([exe, "files", "-seed", str(ctx.seed), "-n", str(nf), "-bin", tool, "-tmp", os.path.join(tmp, "files")],
-                         timeout=3200)
+        tcases = os.path.join(tmp, "tool_cases.txt")
+        rc, so2, e = sh2([exe, "files", "-seed", str(ctx.seed), "-n", str(nf), "-bin", tool, "-tmp", os.path.join(tmp, "files"),
+                          "-o", tcases], timeout=3200)
         if rc != 0:
             raise common.CheckError("harness files failed: " + (so2 + e)[-1000:])
+        # whole-tool correspondence: the extracted model (C10TreeModel.crop_tool: C01's decoder on the input bytes -> tables read
+        # out of the tree -> crop -> the output tree encoded by C01's encoder ++ mdat) must reproduce the tool's outcome class
+        # and, on success, the output FILE byte for byte
+        tlines = open(tcases).read().splitlines()
+        tout = common.run_model(model, "\n".join(tlines) + "\n", timeout=3000)
+        tmism = [l for l in tout if not l.startswith("OK ")]
+        tclasses = {}
+        for l in tlines:
+            k = l.split("\t")[5]
+            tclasses[k] = tclasses.get(k, 0) + 1
+        tdistinct = len(set(l.split("\t", 3)[3] for l in tlines))
+        ctx.cov["evaluations"] += len(tlines)
+        ctx.cov["distinct_nontrivial"] += tdistinct
+        ctx.notes["tool_correspondence"] = {
+            "cases": len(tlines), "tool_outcomes": tclasses, "mismatches": len(tmism), "distinct_cases": tdistinct,
+            "compared": "outcome class ok|err|panic; on ok every byte of the output file; the model's encoded length of the non-mdat "
+                        "boxes against the sizeWithoutMdat that shifted the chunk offsets",
+            "distribution": "every run of the whole-tool search (synthesized files x ~11 durations) + a malformed stream: a copy of every "
+                            "second file with one byte changed inside the values of stts/ctts/stsc/stsz/stco/co64/stss/sdtp/elst (behind "
+                            "the count) or tkhd/mvhd/mdhd (behind version/flags), 3 durations each",
+        }
+        ctx.cov["samples"] += [l[:300] for l in tlines[:1]]
+        ctx.log("tool correspondence: %d cases %s, %d mismatches" % (len(tlines), tclasses, len(tmism)))
+        mism_tool = tmism
         fails, evals = [], 0
         for l in (so + so2).splitlines():
             f = l.split("\t")
@@ -179,6 +204,17 @@ def run(ctx):
             ctx.violation({"kind": "correspondence-mismatch", "correspondence": "C10Model vs cmd/mp4ff-crop routines (c10_verif_test.go)",
                            "mismatches": len(mism), "first_case": by_id.get(first[1], "")[:3000], "model_says": mism[0][:2000]},
                           "model/implementation disagree on %d cases, first: %s" % (len(mism), mism[0][:160]), no_input=True)
+        if mism_tool and not ctx.violations:
+            tby = {}
+            for l in tlines:
+                pz = l.split("\t")
+                tby[pz[1]] = l
+            first = mism_tool[0].split(" ")
+            ctx.violation({"kind": "correspondence-mismatch",
+                           "correspondence": "C10TreeModel.crop_tool (extracted) vs the built mp4ff-crop binary: output file bytes",
+                           "mismatches": len(mism_tool), "first_case": tby.get(first[1], "")[:6000], "model_says": mism_tool[0][:2000]},
+                          "model/implementation disagree on %d whole-tool cases, first: %s" % (len(mism_tool), mism_tool[0][:200]),
+                          no_input=True)
         ctx.proof_violation_if_broken(pr, "c10 search: %d evaluations, no failing input" % evals)
         ctx.cov["rule"] = ("corr: %d generated consistent tables, crop for every k in 0..N+1 (all six routines), findTrakEnds/findEndTime/"
                            "fillTrakOutsAndByteRanges/updateChunkOffsets/writeUptoMdat/writeMdat/cropMP4-on-virtual-file grids; distinct = "
